@@ -162,13 +162,13 @@ def run(tier, seed):
     if meta:
         rep.sample(meta[0]); rep.sample(meta[len(meta) // 2])
     tie_broken = []
-    if proof['ok']:
+    if proof['ok'] or proof['extra_ok']:
         f = common.run_cases(PID, 'expl', PRE, cases, 'xcase_ok', shard=300)
         nm = common.run_cases(PID, 'explm', PRE, cases, 'xcase_modelled', shard=300)
         rep.cov['sentences_outside_model'] = len(nm)
         if f:
             tie_broken.append('explanation model differs from the implementation on %d atoms, first: %r' % (len(f), meta[f[0]]))
-    else:
+    if not proof['ok']:
         tie_broken.append('theorem file does not build: %s' % proof['failed_at'])
     if proof['bad']:
         tie_broken.append('forbidden tokens: %r' % proof['bad'])
